@@ -271,7 +271,11 @@ func firstLast(res *affResult, items []affItem, routeVar string) (first, last []
 	resolve := func(it affItem, wantFirst bool) []anchorPt {
 		if it.star == nil {
 			x, y, ok := pointOf(it.val)
-			return []anchorPt{{x, y, ok, "not a 2-coordinate point: " + avalString(it.val)}}
+			why := "not a 2-coordinate point: " + avalString(it.val)
+			if strings.Contains(why, "final(") {
+				why += " (the point list is carried over from one route to the next: the routes share storage, or the list is not rebuilt per route)"
+			}
+			return []anchorPt{{x, y, ok, why}}
 		}
 		l := it.star
 		var out []anchorPt
